@@ -595,7 +595,9 @@ def m_find(base, mounts, start, allow_compressed, allow_xdev):
             # the first and both names are acceptable answers if it is accepted
             n = present[0]
             rel = (cur + '/' if cur else '') + n
-            if dev_of_rel(mounts, rel) != odev and not allow_xdev:
+            # (the device of the file the name leads to: a Manifest may be a symlink to a file elsewhere)
+            real_rel = os.path.relpath(os.path.realpath(os.path.join(base, rel)), os.path.realpath(base))
+            if (dev_of_rel(mounts, rel) != odev or dev_of_rel(mounts, real_rel) != odev) and not allow_xdev:
                 return last
             with _o['open'](os.path.join(base, rel), 'rb') as f:
                 ents = G.parse(G.decompress(f.read(), G.comp_of(n)).decode('utf8'))
